@@ -324,7 +324,7 @@ func runProbe(c *core.Ctx, prog *probe.Prog, pc []probe.Case, srcOf func(i int) 
 			if c.NFails(fam) >= 3 {
 				continue
 			}
-			in := map[string]any{"template": pc[i].Template, "args": pc[i].Args, "destination": name, "document_(plain_render_into_a_fresh_bytes.Buffer)": res[i],
+			in := map[string]any{"template": pc[i].Template, "args": pc[i].Args, "destination": name, "what_the_fresh_bytes.Buffer_of_the_plain_render_held_at_the_end_of_the_case": res[i],
 				"case_number_in_the_process": i, "destination_seed": seed}
 			if srcOf != nil {
 				in["source"] = trunc(srcOf(i), 20000)
@@ -334,6 +334,12 @@ func runProbe(c *core.Ctx, prog *probe.Prog, pc []probe.Case, srcOf func(i int) 
 				lo = 0
 			}
 			in["cases_rendered_before_in_the_same_process_(oldest_first)"] = append([]destUse(nil), uses[lo:i+1]...)
+			for j := i; j >= 0; j-- {
+				if uses[j].GC != "no" && uses[j].GC != "" {
+					in["last_case_with_the_runtime_pool_emptied"] = map[string]any{"case_number_in_the_process": j, "case": uses[j]}
+					break
+				}
+			}
 			in["how_to_replay"] = "one process; the destinations are created once and reused; each listed case is rendered into a fresh bytes.Buffer, then into the listed destinations (runtime.GC() twice where stated); after each render the caller flushes its writer and reads what the sink behind it received"
 			kind, rest, _ := strings.Cut(st, ":")
 			detail := ""
